@@ -132,10 +132,17 @@ class CompoundQuery(qcore.Query):
         if all(q is qcore.NullQuery for q in subqueries):
             return qcore.NullQuery
 
-        # If there's an unfielded Every inside, then this query is Every
-        if any((isinstance(q, Every) and q.fieldname is None)
-               for q in subqueries):
+        # If there's an unfielded Every inside a union, then this query is
+        # Every (in an intersection it is the other clauses that matter)
+        isand = getattr(self, "intersect_merge", False)
+        if (not isand
+            and any((isinstance(q, Every) and q.fieldname is None)
+                    for q in subqueries)):
             return Every()
+        if isand and len(subqueries) > 1:
+            subqueries = [q for q in subqueries
+                          if not (isinstance(q, Every) and q.fieldname is None)
+                          ] or [Every()]
 
         # Merge ranges and Everys
         everyfields = set()
